@@ -76,7 +76,6 @@ def replay(col, case):
         col.violation("inconsistent-shapes-raise-" + type(ex).__name__, dict(rep, observed=repr(ex)[:200]))
     # ... also when the number of values happens to be a multiple of n that broadcasts against y_tau
     for label, yt, bad, tt in (("k*n-values-vs-(n,k)", y_tau, np.tile(obs, 3), taus),
-                               ("(n,k)-values-vs-(n,k)", y_tau, np.tile(obs.reshape(n, 1), (1, 3)), taus),
                                ("2n-values-vs-(n,1)", y_tau[:, :1].copy(), np.tile(obs, 2), taus[:1])):
         try:
             r = scores.quantile_score(yt, bad, tt)
